@@ -516,8 +516,10 @@ func (s *Server) Unlock(passphrase []byte) error {
 
 // Signers returns the available singers from the in-memory certs and underlying agent.
 func (s *Server) Signers() ([]ssh.Signer, error) {
-	s.mu.RLock()
-	defer s.mu.RUnlock()
+	// filter() prunes the certificate tables and the loop below fills the upstream cache,
+	// so the exclusive lock is required.
+	s.mu.Lock()
+	defer s.mu.Unlock()
 
 	if s.locked {
 		return nil, errors.New("agent is locked")
@@ -569,6 +571,10 @@ func (s *Server) Signers() ([]ssh.Signer, error) {
 
 // Extension processes a custom extension request.
 func (s *Server) Extension(extensionType string, contents []byte) ([]byte, error) {
+	// Forward reads and writes the shared connection directly; keep it from interleaving.
+	s.mu.Lock()
+	defer s.mu.Unlock()
+
 	return s.agent.Extension(extensionType, contents)
 }
 
